@@ -380,11 +380,24 @@ func init() {
 			var in struct {
 				Bytes    []int `json:"bytes"`
 				Trailing bool  `json:"trailing"`
+				Drain    bool  `json:"drain"`
 			}
 			if err := json.Unmarshal(line, &in); err != nil {
 				fatal(err)
 			}
-			w.Write(map[string]interface{}{"bytes": in.Bytes, "trailing": in.Trailing, "got": checkDoc(intsToBytes(in.Bytes), in.Trailing)})
+			got := checkDoc(intsToBytes(in.Bytes), in.Trailing)
+			if in.Drain { // the same call prelude as in the driver: read to the end through NextLexeme, then Check
+				got = guard(func() error {
+					d := jdocNewOpt(intsToBytes(in.Bytes), in.Trailing)
+					for k := 0; k < 10*len(in.Bytes)+10; k++ {
+						if _, e := d.NextLexeme(); e != nil {
+							break
+						}
+					}
+					return d.Check()
+				})
+			}
+			w.Write(map[string]interface{}{"bytes": in.Bytes, "trailing": in.Trailing, "got": got})
 		})
 		return 0
 	})
